@@ -335,7 +335,11 @@ def fheader_obligations():
 CRY = dict(contracts=['cry.h'], defines=['WV_USE_SPEC_AES'])
 # proof-build chunk size (DESIGN.md 2.4): 2 blocks = 32 bytes per buffer instead of 16 MiB
 BUFSZ = ['iobuffer__BUF_SZ=2u', 'iobuffer__sum=32u']
-T_VALUES = list(range(1, 17))
+# T sizes heap arrays, so these obligations are run per value of T.  Quick: 1 and 2.  Thorough: the values below - measured to finish
+# within the memory / time limits (execute_* and run_buffer with T = 16 run out of memory / time; run_multicry and the instance
+# set-up are cheap enough for T = 16).
+T_VALUES = [1, 2, 3, 4]
+T_LIGHT = [1, 2, 3, 4, 16]
 T_QUICK = (1, 2)
 
 
@@ -505,8 +509,25 @@ def pipeline_obligations():
        note='[C03] flush exactly when handed back, before the refill; [C04 lemma 6] over is raised by the first chunk that is not FULL and then every visited buffer is retired')
     ob('pipe_turn_iter', 'buffergroup__turn_iter', 'buffergroup__turn_iter(g);', ['bufferctrl__cmpstate'], group=True, timeout=600,
        note='[C04 lemma 5] the do-while terminates within `size` steps given live_num == number of non-retired buffers; false iff none is left')
-    for x in o[-4:]:
-        x.props = IO + (['C04'] if 'turn_iter' in x.name or 'buffer_update' in x.name else [])
+    nrb = 0
+    for T in T_VALUES:
+        ob('pipe_run_buffer_T%d' % T, 'buffergroup__run_buffer', 'g->size = WV_T_FIX; g->fin = f; g->fout = f2; buffergroup__run_buffer(g);',
+           ['bufferctrl__wait_update', 'buffergroup__buffer_update', 'buffergroup__turn_iter'], group=True, timeout=2400, defines_extra=['WV_T_FIX=%d' % T],
+           tier='quick' if T in (1, 2) else 'thorough',
+           extra=fh + '  wv_FILE *f2 = malloc(sizeof(wv_FILE));\n  __CPROVER_assume(f2 != NULL);\n',
+           note='the I/O thread\'s loop under the rely (workers act on READY buffers only): callee preconditions hold at every turn [C14], the loop '
+                'leaves with every buffer retired and the input exhausted, each turn decreases (input left, live buffers) [C04], bytes written <= bytes read '
+                '(+16 when padding) [C11], output appended once [C03] (T = %d buffers)' % T)
+        nrb += 1
+    for T in T_LIGHT:
+        o.append(Ob('pipe_run_multicry_T%d' % T, IO + ['C04', 'C15'], enforce='multicry_master__run_multicry', replace=['buffergroup__run_buffer'], contracts=PIPE['contracts'],
+                    defines=PIPE['defines'] + ['WV_T_FIX=%d' % T], unwind=T + 2, timeout=1800, tier='quick' if T in (1, 2) else 'thorough',
+                    note='the sequential summary of one pipeline run used by execute_encrypt / execute_decrypt, proved from the contract of the I/O thread\'s loop '
+                         '(run_buffer, itself proved under the workers\' rely): T workers started on buffer i with stream i and all joined; every buffer retired; '
+                         'encryption appends exactly 16(floor(n/16)+1) bytes, decryption at most n; appended once, nothing before the old end touched (T = %d)' % T))
+    nmc = len(T_LIGHT)
+    for x in o[-(4 + nrb + nmc):-nmc]:
+        x.props = IO + (['C04'] if 'turn_iter' in x.name or 'buffer_update' in x.name or 'run_buffer' in x.name else [])
     return o
 
 
